@@ -20,7 +20,8 @@ Inductive lentry :=
 | LSentV (remote item : N) (v : Z)            (* an event frame of a value lane read by a remote *)
 | LSentM (remote item : N) (o : mop)          (* an event frame of a map lane *)
 | LLinked (remote item : N) | LSynced (remote item : N) | LUnlinked (remote item : N)
-| LClosed (remote : N).                       (* the remote's channel was closed by the agent *)
+| LClosed (remote : N)                        (* the remote's channel was closed by the agent *)
+| LGone (remote : N).                         (* the remote went away (dropped its end): nothing more is owed to it *)
 
 Definition mop_eqb (a b : mop) : bool :=
   match a, b with
@@ -240,6 +241,7 @@ Fixpoint links_ok_from (open : list (N * N)) (closed : list N) (l : list lentry)
           negb (existsb (N.eqb r) closed) && is_open open r i && links_ok_from open closed t
       | LClosed r =>
           negb (existsb (fun p => fst p =? r) open) && links_ok_from open (r :: closed) t
+      | LGone r => links_ok_from (filter (fun p => negb (fst p =? r)) open) closed t
       | _ => links_ok_from open closed t
       end
   end.
